@@ -41,6 +41,7 @@ class SchedModel:
             if tag in self.tags:
                 self.events.discard((self.tags[tag], tag))
             self.tags[tag] = when
+        self.prev_first = self.earliest()      # (used by the stale-slot emulation only)
         self.events.add((when, tag or ""))
         return True
 
@@ -257,13 +258,15 @@ class ModelRun:
     requests: list = field(default_factory=list)      # (uid, t_made, t_when)
     sched_q: dict = field(default_factory=dict)       # (uid, evalno, k) -> queries tuple   (k = op index, -1 = pre)
     sampled: list = field(default_factory=list)       # (uid, t) runs that exist only through the sampled-start emulation
-    stale: list = field(default_factory=list)         # (uid, t) runs that exist only through the stale-slot emulation
+    stale: list = field(default_factory=list)
+    stale_armed: list = field(default_factory=list)   # (uid, t, slot): emulated graph slot left armed at a cancelled time         # (uid, t) runs that exist only through the stale-slot emulation
     terminated_by: object = None                      # (uid, phase, occ) when an uncaptured fault ended the run
     writes: dict = field(default_factory=dict)        # inst id -> [(t, val)]
     stats: dict = field(default_factory=dict)
+    next_after: dict = field(default_factory=dict)    # cycle time -> earliest pending wake-up afterwards (INF = none)
 
 
-ALL_UNCHECKED_OPS = {"gate", "sched"}
+ALL_UNCHECKED_OPS = {"gate", "sched", "allvalid2"}   # ops whose valid_inputs selector is empty
 
 
 def innermost_nested(path):
@@ -320,9 +323,9 @@ def simulate(flat: Flat, emulate_stale=False, emulate_sampled_start=False) -> Mo
 
     def request(i, s, now, when, started=True, tag=""):
         R.requests.append((i.uid, now, when))
-        prev = s.sched.earliest()
         ok = s.sched.schedule(when, tag, now, started)
         if ok:
+            prev = s.sched.prev_first
             new = s.sched.earliest()
             if prev is None or new < prev:
                 # graph.schedule_node(next): slot replaced when consumed/current or earlier
@@ -471,6 +474,8 @@ def simulate(flat: Flat, emulate_stale=False, emulate_sampled_start=False) -> Mo
                          S[r.target.id].val if S[r.target.id].valid else None) for r in i.ins]
             out = None
             ran = False
+            if forced_due and not pending_due and not active_tick:
+                R.sampled.append((i.uid, t))
             if not ready:
                 R.stats["gate_closed"] = R.stats.get("gate_closed", 0) + 1
             if due and active_tick:
@@ -536,8 +541,7 @@ def simulate(flat: Flat, emulate_stale=False, emulate_sampled_start=False) -> Mo
                 R.runs[(i.uid, t)] = (out, ins_snap)
                 if slot_due and not pending_due and not active_tick:
                     R.stale.append((i.uid, t))
-                if forced_due and not pending_due and not active_tick:
-                    R.sampled.append((i.uid, t))
+
                 if out is not None:
                     s.val, s.valid, s.lmt = out, True, t
                     ticked.add(k)
@@ -554,9 +558,13 @@ def simulate(flat: Flat, emulate_stale=False, emulate_sampled_start=False) -> Mo
                     elif e is not None:
                         if s.slot is None or s.slot <= t or e < s.slot:
                             s.slot = e
+                    if s.slot is not None and s.slot > t and all(ev[0] != s.slot for ev in s.sched.events):
+                        R.stale_armed.append((i.uid, t, s.slot))
         # feedback capture: producer ticked at t -> delivery at t+1
         for k, i in enumerate(insts):
             if i.op == "fb" and i.fb_source is not None and i.fb_source.target.id in ticked:
                 S[k].queue[t + 1] = S[i.fb_source.target.id].val
+        later = [w for w in (wake_time(k) for k in range(len(insts))) if w is not None and w > t]
+        R.next_after[t] = min(later) if later else INF
         t_prev = t
     return R
